@@ -24,10 +24,26 @@ import (
 	"time"
 )
 
-const (
-	verifDir = "/verif"
-	repoDir  = "/repo"
+const verifDir = "/verif"
+
+// repoDir is /repo. VERIF_REPO points the driver at a scratch copy instead (to
+// try a seeded change or run a long sweep without touching /repo); evidence and
+// replays of such runs go to outDir, never to /verif/evidence.
+var (
+	repoDir = "/repo"
+	outDir  = verifDir
+	altRepo = false
 )
+
+func init() {
+	if d := os.Getenv("VERIF_REPO"); d != "" && d != "/repo" {
+		repoDir, altRepo = filepath.Clean(d), true
+		outDir = os.Getenv("VERIF_OUT")
+		if outDir == "" {
+			outDir = "/var/tmp/verif-alt-out"
+		}
+	}
+}
 
 type propCfg struct {
 	Extra       []string // further engines that serve the same property (their runs are added)
@@ -142,6 +158,9 @@ func cacheRoot() string {
 	if d := os.Getenv("VERIF_CACHE"); d != "" {
 		return d
 	}
+	if altRepo {
+		return "/var/tmp/verif-cache-alt"
+	}
 	return "/var/tmp/verif-cache"
 }
 
@@ -201,6 +220,20 @@ func prepare(pc0 *propCfg, engineName string) string {
 			die(2, "%v", err)
 		}
 	}
+	modArgs := []string{}
+	if altRepo {
+		// the harness module replaces nri-plugins by /repo: an alternate go.mod
+		// (and go.sum next to it) points it at the scratch copy
+		b, err := os.ReadFile(filepath.Join(verifDir, "go.mod"))
+		if err != nil {
+			die(2, "%v", err)
+		}
+		alt := strings.ReplaceAll(string(b), "=> /repo", "=> "+repoDir)
+		sum, _ := os.ReadFile(filepath.Join(verifDir, "go.sum"))
+		os.WriteFile(filepath.Join(dir, "alt.mod"), []byte(alt), 0o644)
+		os.WriteFile(filepath.Join(dir, "alt.sum"), sum, 0o644)
+		modArgs = []string{"-modfile=" + filepath.Join(dir, "alt.mod")}
+	}
 	bin := filepath.Join(dir, "bin-"+pc.Engine)
 	if _, err := os.Stat(bin); err != nil {
 		gobin := "go"
@@ -215,9 +248,13 @@ func prepare(pc0 *propCfg, engineName string) string {
 			if strings.HasPrefix(pc.TestPkg, "./engines/") {
 				wd = verifDir // a harness test package (testing/synctest needs a *testing.T)
 			}
-			out, err = run(wd, env, gobin, "test", "-c", "-tags", "verif", "-vet=off", "-overlay", filepath.Join(gen, "overlay.json"), "-o", bin+".tmp", pc.TestPkg)
+			a := append([]string{"test", "-c"}, modArgs...)
+			a = append(a, "-tags", "verif", "-vet=off", "-overlay", filepath.Join(gen, "overlay.json"), "-o", bin+".tmp", pc.TestPkg)
+			out, err = run(wd, env, gobin, a...)
 		} else {
-			out, err = run(verifDir, env, gobin, "build", "-tags", "verif", "-overlay", filepath.Join(gen, "overlay.json"), "-o", bin+".tmp", "./engines/"+pc.Engine)
+			a := append([]string{"build"}, modArgs...)
+			a = append(a, "-tags", "verif", "-overlay", filepath.Join(gen, "overlay.json"), "-o", bin+".tmp", "./engines/"+pc.Engine)
+			out, err = run(verifDir, env, gobin, a...)
 		}
 		if err != nil {
 			die(2, "building engine %s failed (build trouble, not a verdict): %v\n%s", pc.Engine, err, out)
@@ -623,7 +660,7 @@ func main() {
 		vb, _ := json.Marshal(v)
 		rep["violation"] = vb
 		rpb, _ := json.MarshalIndent(rep, "", " ")
-		dir := filepath.Join(verifDir, "replays", prop)
+		dir := filepath.Join(outDir, "replays", prop)
 		os.MkdirAll(dir, 0o755)
 		path := filepath.Join(dir, fmt.Sprintf("%d-%s.json", r.Seed, shortHash(sig)))
 		if err := os.WriteFile(path, rpb, 0o644); err != nil {
@@ -655,7 +692,7 @@ func main() {
 	if a.hangs > 0 {
 		// a run that never returns is outside what this property states unless
 		// the engine says otherwise; it is harness trouble to be looked at
-		dir := filepath.Join(verifDir, "replays", prop)
+		dir := filepath.Join(outDir, "replays", prop)
 		os.MkdirAll(dir, 0o755)
 		for i, h := range a.hangReplays {
 			if i < 3 {
@@ -721,8 +758,8 @@ func main() {
 		"violations":  nviol,
 	}
 	eb, _ := json.MarshalIndent(ev, "", " ")
-	os.MkdirAll(filepath.Join(verifDir, "evidence"), 0o755)
-	if err := os.WriteFile(filepath.Join(verifDir, "evidence", prop+".json"), eb, 0o644); err != nil {
+	os.MkdirAll(filepath.Join(outDir, "evidence"), 0o755)
+	if err := os.WriteFile(filepath.Join(outDir, "evidence", prop+".json"), eb, 0o644); err != nil {
 		die(2, "%v", err)
 	}
 	fmt.Printf("check %s tier=%s seed=%d: %d runs, %d ops, %d distinct non-trivial states, %d violation signature(s) (%d known), wall %.0fs\n",
